@@ -163,6 +163,8 @@ def run(ctx):
                   kind="FLOW") as r:
         from . import c17
         c17.unbounded_rule(ctx, r)
+    with ctx.rule("C13.PHANTOM", "no context for the empty range after the final terminator", floor=1, kind="GUARD") as r:
+        phantom_rule(ctx, r)
     with ctx.rule("C13.LOCATE", "a line locator never extends a range that already ends with the terminator", floor=1, kind="GUARD") as r:
         # Any searcher routine that turns a Match into the Match of its lines by scanning forward from range.end() for the
         # terminator must first ask whether the byte before range.end() is the terminator: otherwise a match ending with
@@ -214,6 +216,25 @@ def run(ctx):
         c16.stop_rule(ctx, r, only=lambda p: p.startswith(ML + "::"))
     with ctx.rule("C13.FINISH", "Core::finish exactly once in MultiLine::run (shared rule)", floor=1, kind="ONCE") as r:
         c16.once_rule(r, facts.fn(ML + "::run"), c16.CORE + "::finish", "Core::finish")
+
+
+def phantom_rule(ctx, r):
+    """The empty range after the final terminator (a pattern that matches the empty string matches there) is not a line:
+    MultiLine::run must not deliver context for it. sink_matched refuses the range itself; the context call that precedes
+    it has to sit on the !is_empty() edge as well, or lines far from any match are delivered as before-context."""
+    facts = ctx.facts
+    f = facts.fn(ML + "::run")
+    eb = ExprBuilder(f)
+    sc = f.calls_to(ML + "::sink_context")
+    emp = cond_switches(f, lambda e: is_call(e, "grep_matcher::Match::is_empty"), eb)
+    if not sc:
+        r.bad("run|phantom", "anchor-missing: MultiLine::run no longer delivers the context of the pending match", fn=f)
+    elif emp and not guarded(f, [c.bb for c in sc], emp, False):
+        r.ok("run|phantom", "context of the pending range only when the range is not empty", fn=f)
+    else:
+        r.bad("run|phantom", "MultiLine::run delivers context for the pending range without asking whether it is empty: for a "
+              "pattern that matches the empty string after the final terminator, the lines before EOF are delivered as "
+              "before-context of a match that is never reported", fn=f, loc=sc[0].loc, construct="phantom")
 
 
 def mlpred_rule(ctx, r):
